@@ -66,6 +66,11 @@ class Iter(Evaluatable[Iterable[A]]):
         return f"Iter({', '.join(map(repr, self.evaluatables))})"
 
 
+def _second_of_each(items: Iterable[Tuple[Dict[str, JSON], A]]) -> Iterable[A]:
+    # a module-level function (not a lambda) so that Map(...).values can be pickled
+    return (item[1] for item in items)
+
+
 class Map(Evaluatable[Iterable[Tuple[Dict[str, JSON], A]]]):
     """A class that represents the same evaluatable repeated over multiple options.
 
@@ -185,4 +190,4 @@ class Map(Evaluatable[Iterable[Tuple[Dict[str, JSON], A]]]):
         returns the second element of the tuples returned by the Map
         evaluatable.
         """
-        return self.apply(lambda items: (item[1] for item in items))
+        return self.apply(_second_of_each)
